@@ -171,6 +171,14 @@ def _literals(t, acc):
     return acc
 
 
+def _mentions(t, var: str) -> bool:
+    if isinstance(t, tuple) and len(t) == 2 and t[0] == "var" and t[1] == var:
+        return True
+    if isinstance(t, (tuple, list)):
+        return any(_mentions(x, var) for x in t)
+    return False
+
+
 class Valuation:
     """Pseudo-random values for the opaque leaves of neutral trees, a function of
     (seed, leaf) only, so that two trees are evaluated under the same assignment.
@@ -186,6 +194,7 @@ class Valuation:
             pool.update({c - 1, c, c + 1})
         self.pool = sorted(pool)
         self.assigned: Dict[str, Any] = {}
+        self.bind: Dict[str, int] = {}
 
     def truth(self, t) -> bool:
         k = t[0]
@@ -200,9 +209,25 @@ class Valuation:
             return {"LT": l < r, "LE": l <= r, "GT": l > r, "GE": l >= r, "EQ": l == r, "NE": l != r}[t[1]]
         if k == "bool":
             return t[1]
-        v = bool(_h(self.seed, t, 2))
-        self.assigned[json.dumps(xt.tojson(t))] = v
+        if k in ("any", "all"):
+            # two pseudo-elements: the bound variable takes the values 0 and 1, so that
+            # "only some elements satisfy the condition" occurs and any / all differ
+            var = t[1]
+            results = []
+            for idx in (0, 1):
+                self.bind[var] = idx
+                results.append(self.truth(t[3]))
+            self.bind.pop(var, None)
+            return any(results) if k == "any" else all(results)
+        key = self._key(t)
+        v = bool(_h(self.seed, key, 2))
+        self.assigned[json.dumps(xt.tojson(key))] = v
         return v
+
+    def _key(self, t):
+        """The leaf together with the current values of the bound variables it mentions."""
+        bound = sorted((v, i) for v, i in self.bind.items() if _mentions(t, v))
+        return (t, bound) if bound else t
 
     def number(self, t):
         k = t[0]
@@ -214,8 +239,9 @@ class Valuation:
             return self.number(t[1]) - self.number(t[2])
         if k in ("str", "enum", "bool"):
             return _h(0, t, 1000003)
-        v = self.pool[_h(self.seed, t, len(self.pool))]
-        self.assigned[json.dumps(xt.tojson(t))] = v
+        key = self._key(t)
+        v = self.pool[_h(self.seed, key, len(self.pool))]
+        self.assigned[json.dumps(xt.tojson(key))] = v
         return v
 
 
